@@ -16,6 +16,7 @@ thread_local! {
     static IN_HOOK: Cell<bool> = const { Cell::new(false) };
     static HUGE: RefCell<Option<(usize, String)>> = const { RefCell::new(None) };
     static PANIC_SITE: RefCell<Option<String>> = const { RefCell::new(None) };
+    static GUARDED: Cell<u32> = const { Cell::new(0) };
 }
 
 fn site_from_backtrace() -> String {
@@ -126,6 +127,9 @@ pub fn install_panic_hook() {
         if reentrant {
             return;
         }
+        if GUARDED.with(|g| g.get()) == 0 {
+            eprintln!("harness panic outside guard: {info}");
+        }
         let is_huge = HUGE.with(|h| h.borrow().is_some());
         if !is_huge {
             let loc = info
@@ -179,7 +183,9 @@ impl Bad {
 pub fn guarded<T>(f: impl FnOnce() -> T) -> Result<T, Bad> {
     HUGE.with(|h| *h.borrow_mut() = None);
     PANIC_SITE.with(|p| *p.borrow_mut() = None);
+    GUARDED.with(|g| g.set(g.get() + 1));
     let r = std::panic::catch_unwind(std::panic::AssertUnwindSafe(f));
+    GUARDED.with(|g| g.set(g.get() - 1));
     match r {
         Ok(v) => Ok(v),
         Err(_) => {
